@@ -18,6 +18,13 @@ FIELD_TABLE = {
     "Last-Modified": "last_modified", "Prio": "priority", "Pos": "position", "Id": "id",
 }
 ENTRY_STARTS = {"file", "directory", "playlist"}
+# attribute -> (parse types wide enough for every protocol value, parse types known to be too narrow)
+_NARROW = {"u8", "u16", "i8", "i16", "core::num::nonzero::NonZero<u8>", "core::num::nonzero::NonZero<u16>"}
+NUMERIC_RANGE = {
+    "Pos": ({"u32", "u64", "usize", "u128"}, _NARROW),
+    "Id": ({"u32", "u64", "usize", "u128"}, _NARROW),
+    "Prio": ({"u8", "u16", "u32", "u64", "usize"}, {"i8", "bool"}),
+}
 
 
 def self_aliases(body):
@@ -115,6 +122,22 @@ def one(rep, prog, cfg):
         rep.check(got.get(lit) == {field}, "C14.fields", "%s/%s->%s" % (cfg, lit, "+".join(sorted(got.get(lit, ["?"]))) or "-"),
                   hs.loc(hs.span), "attribute line %r sets builder field(s) %s, the protocol table says %s"
                   % (lit, sorted(got.get(lit, [])), field), detail={"writes": sorted(got.get(lit, []))})
+    # the numeric attributes are parsed with a type that holds every value the protocol can send there (MPD: queue positions and
+    # song ids are unsigned 32-bit, priorities 0..255): a narrower parse type turns a well-formed listing into an error
+    for lit, (wide, narrow) in NUMERIC_RANGE.items():
+        tys = set()
+        for bb in cases.get(lit, set()) - common:
+            t = hs.blocks[bb]["t"]
+            if t["k"] == "call" and any(n.endswith("FromFieldValue::from_value") or n.endswith("::parse") for n in callee_names(t)):
+                c = callee(t) or {}
+                tys.update(a for a in c.get("args", [])[:1])
+        bad = sorted(tys & narrow)
+        rep.check(not bad and tys, "C14.fields", "%s/%s parsed wide enough" % (cfg, lit), hs.loc(hs.span),
+                  "attribute line %r is parsed as %s: %s" % (lit, sorted(tys) or "?", "values the protocol allows there do not fit and the whole listing "
+                                                               "fails to decode" if bad else "no conversion found in that arm (idiom unknown: failing closed)"),
+                  detail={"parse_types": sorted(tys)})
+        for ty in sorted(tys - wide - narrow):
+            rep.note("C14 parse types outside the reference (not decided) " + cfg, "%s: %s" % (lit, ty))
     extra = [c for c in cells if c not in FIELD_TABLE and c not in ENTRY_STARTS and c != tables.OTHER]
     rep.check(not extra, "C14.fields", cfg + "/no extra attribute names", hs.loc(hs.span),
               "handle_song_field treats %s as attributes; the protocol table has no such song attribute" % extra)
